@@ -21,7 +21,7 @@ ASSUMPTIONS = [
     "collections.deque append/appendleft/popleft have their documented end-of-queue semantics",
     "StreamWriter.write buffers bytes in call order",
 ]
-FLOORS = {"C01.R1": 6, "C01.R2": 5, "C01.R3": 4, "C01.R4": 4, "C01.R5": 2, "C01.R6": 2}
+FLOORS = {"C01.R1": 7, "C01.R2": 5, "C01.R3": 4, "C01.R4": 4, "C01.R5": 2, "C01.R6": 2}
 
 QUEUE_READ_OK = {"len", "bool", "reversed", "list", "tuple", "iter", "enumerate"}
 MUTATORS = {"append", "appendleft", "pop", "popleft", "insert", "extend", "extendleft", "clear", "rotate", "remove", "reverse", "sort", "__setitem__", "__delitem__"}
@@ -66,6 +66,11 @@ def r1(ctx):
         elif not ok:
             found = f"append({unparse(arg) if arg is not None else ''})"
         ctx.check(ok, R, "_enqueue_message:append(entry)", m, call, "the only definition reaching the appended name is the function parameter", found)
+
+        # a rejected submission must not be held: nothing raises after the append
+        after = [enq.cfg.nodes[i] for i in enq.cfg.reachable(n.id, labels=None) if i != n.id]
+        raises = [x for x in after if x.kind == "stmt" and isinstance(x.ast, ast.Raise)]
+        ctx.check(not raises, R, "_enqueue_message:no-raise-after-append", m, (raises[0].ast if raises else call), "once the entry is appended _enqueue_message returns normally (a message whose send() raised is never transmitted)", f"raise at line {raises[0].lineno} is reachable after the append: the caller is told the message was refused, yet it stays queued and is sent later" if raises else "")
 
     # (b) send_with_header builds the entry from its own parameters
     swh = sock_fn(ctx, "send_with_header")
@@ -160,6 +165,18 @@ def r2(ctx):
                     "appendleft": f"{SOCK_CLS}._drain_message_queue",
                 }
                 ok = meth in allowed and qual == allowed[meth] and m.name == SOCKET
+                if meth == "clear" and m.name == SOCKET and qual in (f"{SOCK_CLS}.close", f"{SOCK_CLS}.open_socket"):
+                    # discarding what is pending when the client stops being open (C15.R5): not a loss "while the client is open"
+                    f = sock_fn(ctx, qual.split(".")[-1])
+                    at = [n for n, c in f.calls("self._message_queue.clear")]
+                    if qual.endswith(".close"):
+                        gates = [n for n, v in f.assigns("self.is_open") if isinstance(v, ast.Constant) and v.value is False]
+                        ok = bool(at) and all(any(f.cfg.dominates(gt.id, a.id) for gt in gates) for a in at)
+                    else:
+                        ts = f.tests(lambda e: dotted(e) == "self.is_open")
+                        ok = bool(at) and bool(ts) and all(any(f.cfg.dominates(f.branch(t, "false").id, a.id) for t in ts) for a in at)
+                    ctx.check(ok, R, f"{where}:_message_queue.clear", m, parent, "pending messages are discarded only once the socket is no longer open (close() after is_open = False, or open_socket() on a closed socket)", "clear() while the socket is open loses accepted messages")
+                    continue
                 if ok:
                     seen[meth] += 1
                 ctx.check(ok, R, f"{where}:_message_queue.{meth}", m, parent, "queue mutated only by append (enqueue, tail), popleft (drain, head), appendleft (drain re-queue, head)", f"{meth}() in {m.relpath}:{qual}")
